@@ -284,6 +284,7 @@ def sentClosedB (db : DB) : Bool :=
   db.entries.all (fun e => !e.sent || sentChainB db (db.entries.length + 1) e.blk.id)
 
 def stepOKb (s : FState) (b : Blk) : Bool :=
+  (!s.includeInit || s.lastSent.isSome || b.id != s.db.libRef.id) &&
   sentClosedB s.db && wfInB b && hbB s.db b && libDeclB s.db b
 
 /-- a finite universe of blocks given as a list, and the executable check that it is consistent (ids identify
